@@ -88,4 +88,20 @@ SetUpAll(f, same, u, recompute, nsub) == IF recompute THEN Repeat(SetUp(f), nsub
 NormNeed(kind, same) == IF kind = "AddSens" THEN same ELSE TRUE
 
 Healthy(f) == ~f.bad /\ ~f.ierr /\ ~f.wrong
+
+-----------------------------------------------------------------------------
+(* Beyond the property's sentence - the set-up protocol the class documents: "After using any  *)
+(* of these [set functions], you have to call set_up()", and the compute functions refuse to   *)
+(* work ("Need to call set_up() for objective function first") while the object is not set up: *)
+(* freshly constructed, or after one of the setters below.  The value-changing setters only    *)
+(* invalidate the set-up when the value really changes; the pointer setters always do.         *)
+AlwaysInvalidating == {"set_proj_data_sptr", "set_input_data", "set_additive_proj_data_sptr", "set_normalisation_sptr",
+                       "set_projector_pair_sptr", "set_sensitivity_filename", "set_subset_sensitivity_sptr"}
+InvalidatingIfChanged == {"set_num_subsets", "set_max_segment_num_to_process", "set_zero_seg0_end_planes",
+                          "set_use_subset_sensitivities", "set_frame_num", "set_frame_definitions"}
+Setters == AlwaysInvalidating \cup InvalidatingIfChanged
+ReadyAfterSetter(ready, name, changed) == ready /\ ~(name \in AlwaysInvalidating \/ (name \in InvalidatingIfChanged /\ changed))
+(* the requests that must be refused while not set up (the stored sensitivity can be read and   *)
+(* add_subset_sensitivity called without the check: nothing is demanded of those)               *)
+MustRefuse == {"Value", "Grad", "GradPlusSens", "HessTimes", "ApproxHess"}
 =============================================================================
